@@ -304,7 +304,12 @@ impl CaseEngine for C06 {
         args.u64("n", if args.thorough() { 5000 } else { 300 }) as usize
     }
     fn case_timeout_s(&self, _args: &Args) -> u64 {
-        300
+        1800
+    }
+    fn hang_cpu_seconds(&self) -> f64 {
+        // one step can be a burst of more than 8192 nodes with indexed values on the file-only storage, which takes
+        // minutes of CPU in the dev profile: no CPU verdict here, only the (long) wall-clock watchdog
+        f64::INFINITY
     }
     fn run_case(&self, args: &Args, case: usize, rep: &mut Report, progress: &dyn Fn(&str)) {
         let seed = derive(args.u64("seed", 1), &[tag("C06"), case as u64]);
